@@ -8,6 +8,7 @@ func runR_C01(c *Ctx) {
 	rR3(c, ps...)
 	rGenerating(c, ps...)
 	rHelperArity(c, ps...)
+	rR4(c, ps...)
 }
 
 func runR_C09(c *Ctx) {
@@ -16,6 +17,7 @@ func runR_C09(c *Ctx) {
 	rPanics(c, ps...)
 	rR1(c, ps...)
 	rUnsupportedKinds(c, "equal", "compare", "hash", "deepcopy", "gostring")
+	rR4(c, ps...)
 }
 
 func runR_C12(c *Ctx) {
